@@ -15,6 +15,15 @@ Anything else (a hole in an attribute, in raw script code, in <style>, filters,
 whitespace-control markers, other block tags) raises Unsupported.  The struct
 fields of GraphiQLSource and which of them are Option / map typed are read from
 src/http/graphiql_source.rs and checked against the template's use.
+
+Baseline: `python3 tools/facts.py --save-baseline` keeps a committed copy of the
+generated file in coq/gen.baseline/TemplateGen.v (its header carries the sha256
+of the .jinja it was made from).  When gen() raises Unsupported the rejection is
+reported as a broken obligation and run_standard puts that copy into coq/gen so
+that the search for a concrete failing configuration still has a model (the
+evidence says so under facts_baseline_used_for_search).  The context judgement
+of Graphiql.v (ctx_safe) compares real pages only and does not depend on it.
+Refresh the baseline after every accepted change of the template.
 """
 import hashlib
 import re
